@@ -11,6 +11,10 @@ def build_fd(fedjax, kind, ids, path=None):
           for i, cid in enumerate(ids)}
   if kind == 'mem':
     return fedjax.InMemoryFederatedData(data), data
+  if kind == 'memstr':
+    # the same id population as str objects (trailing NULs and prefixes included); in-memory data accepts any hashable id
+    sdata = {cid.decode('latin1'): v for cid, v in data.items()}
+    return fedjax.InMemoryFederatedData(sdata), sdata
   if kind in ('subset', 'slice'):
     # derived views of a larger in-memory dataset (two more clients after the last id)
     more = dict(data)
@@ -28,15 +32,17 @@ def build_fd(fedjax, kind, ids, path=None):
 
 def describe(sample, data, all_ids):
   ids = [c for c, _, _ in sample]
+  hexid = lambda c: (c.encode('latin1') if isinstance(c, str) else c).hex()
   keys = [np.asarray(k).tobytes().hex() for _, _, k in sample]
   ds_ok = all(c in data and np.array_equal(ds.all_examples()['x'], data[c]['x']) for c, ds, _ in sample)
   return {
-      'ids': [c.hex() for c in ids],
+      'ids': [hexid(c) for c in ids],
       'keys': keys,
       'no_repeat': len(set(ids)) == len(ids),
       'ids_from_dataset': all(c in all_ids for c in ids),
       'dataset_matches_id': bool(ds_ok),
-      'digest': hashlib.sha1(repr(([c.hex() for c in ids], keys)).encode()).hexdigest(),
+      'id_types_ok': all(type(c) is type(next(iter(data))) for c in ids),
+      'digest': hashlib.sha1(repr(([hexid(c) for c in ids], keys)).encode()).hexdigest(),
   }
 
 
@@ -59,7 +65,11 @@ def main():
       sampler.set_round_num(op['r'])
       out.append({'e': 'SetRound', 'r': op['r']})
     else:
-      d = describe(sampler.sample(), data, set(ids))
+      try:
+        d = describe(sampler.sample(), data, set(data))
+      except Exception as ex:  # pylint: disable=broad-except
+        d = {'ids': [], 'keys': [], 'no_repeat': False, 'ids_from_dataset': False, 'dataset_matches_id': False, 'id_types_ok': False,
+             'digest': 'exception ' + type(ex).__name__, 'error': f'{type(ex).__name__}: {str(ex)[:80]}'}
       d['e'] = 'Sample'
       d['cohort_size_ok'] = len(d['ids']) == job['cohort']
       out.append(d)
